@@ -40,6 +40,7 @@ pub struct Generator
 	local_variables: std::collections::HashMap<u32, LLVMValueRef>,
 	local_labeled_blocks: std::collections::HashMap<u32, LLVMBasicBlockRef>,
 	used_intrinsics: std::collections::HashMap<&'static str, LLVMValueRef>,
+	structure_types: std::collections::HashMap<String, LLVMTypeRef>,
 	target_triple: CString,
 	data_layout: CString,
 	type_of_usize: LLVMTypeRef,
@@ -78,6 +79,7 @@ impl Generator
 				local_variables: std::collections::HashMap::new(),
 				local_labeled_blocks: std::collections::HashMap::new(),
 				used_intrinsics: std::collections::HashMap::new(),
+				structure_types: std::collections::HashMap::new(),
 				target_triple,
 				data_layout,
 				type_of_usize,
@@ -141,6 +143,7 @@ impl Generator
 		self.local_variables.clear();
 		self.local_labeled_blocks.clear();
 		self.used_intrinsics.clear();
+		self.structure_types.clear();
 
 		Ok(())
 	}
@@ -173,8 +176,26 @@ impl Generator
 	) -> Result<(), anyhow::Error>
 	{
 		let name = CString::new(structure_name)?;
-		unsafe { LLVMStructCreateNamed(self.context, name.as_ptr()) };
+		// Named types live in the context, which is shared by all modules,
+		// so remember which type belongs to the current module.
+		let struct_type =
+			unsafe { LLVMStructCreateNamed(self.context, name.as_ptr()) };
+		self.structure_types
+			.insert(structure_name.to_string(), struct_type);
 		Ok(())
+	}
+
+	fn get_structure_type(
+		&self,
+		structure_name: &str,
+	) -> Result<LLVMTypeRef, anyhow::Error>
+	{
+		if let Some(struct_type) = self.structure_types.get(structure_name)
+		{
+			return Ok(*struct_type);
+		}
+		let name = CString::new(structure_name)?;
+		Ok(unsafe { LLVMGetTypeByName(self.module, name.as_ptr()) })
 	}
 
 	/// Generate surface level IR for constants, structures and
@@ -531,16 +552,16 @@ fn declare(
 			depth: _,
 		} =>
 		{
-			let name = CString::new(&name.name as &str)?;
-			let struct_type = unsafe {
-				let x = LLVMGetTypeByName(llvm.module, name.as_ptr());
+			let struct_type = {
+				let x = llvm.get_structure_type(&name.name)?;
 				if !x.is_null()
 				{
 					x
 				}
 				else
 				{
-					LLVMStructCreateNamed(llvm.context, name.as_ptr())
+					llvm.forward_declare_structure(&name.name)?;
+					llvm.get_structure_type(&name.name)?
 				}
 			};
 
@@ -1369,8 +1390,7 @@ impl Generatable for ValueType
 				size_in_bytes: _,
 			} =>
 			{
-				let struct_name = CString::new(&identifier.name as &str)?;
-				unsafe { LLVMGetTypeByName(llvm.module, struct_name.as_ptr()) }
+				llvm.get_structure_type(&identifier.name)?
 			}
 			ValueType::UnresolvedStructOrWord { .. } => unreachable!(),
 			ValueType::Pointer { deref_type }
@@ -2761,8 +2781,7 @@ fn format_struct(
 	buffer.add_user_text(&struct_name.name, llvm)?;
 	buffer.add_text(" {");
 
-	let sname = CString::new(&struct_name.name as &str)?;
-	let struct_type = unsafe { LLVMGetTypeByName(llvm.module, sname.as_ptr()) };
+	let struct_type = llvm.get_structure_type(&struct_name.name)?;
 	// TODO print members
 	let _ = (argument, struct_type);
 
